@@ -12,7 +12,7 @@ LEVEL = 'exploration'
 CASES_ARE_COUNTED = True
 TIERS = {'quick': {'runs': 16000, 'budget_s': 45}, 'thorough': {'runs': 1200000, 'budget_s': 900}}
 RULE = ('one run = one seeded interleaving (<= 30 events) on one engine of up to 3 simultaneously suspended enumerations (query or retract over '
-        'p/1, c/1, p/2; ground facts; ground, partial and variable patterns) with mutations of the same predicates between any two of their '
+        'p/1, c/1, p/2; ground facts, in 30% of the runs also facts with variables; 8% of the runs start with 60-150 facts on one predicate; ground, partial and variable patterns) with mutations of the same predicates between any two of their '
         'steps (asserta, assertz, retract-first-then-close, retractall, clear, and the compiled idioms drain = "p(X), retract(p(X)), fail" and '
         'upd = "retract(c(N)), assertz(c(s(N))), fail" under a line budget); half of the mutations are aimed at the record just visited or about '
         'to be visited by a suspended enumeration. A case = one event compared with the snapshot model + read-back of all predicates; '
@@ -20,17 +20,18 @@ RULE = ('one run = one seeded interleaving (<= 30 events) on one engine of up to
         'of that predicate is suspended; distinct = hash of (event kind, enumeration kind, cursor position, snapshot length, what changed since start)')
 ASSUMPTIONS = [
     'a goal starts at its first next() (generator bodies run lazily); the model snapshots then',
-    'ground facts only (C13 covers non-ground stored facts)',
+    'facts are ground, except in the 30% of runs where the arity-1 predicates may hold facts with fact-local variables (then no idioms are run); every enumeration has its own pattern variables',
     'the update idioms must finish within 20000 executed engine/generated lines (they need < 1500 on a correct engine)',
 ]
 COMPONENTS = {'real': ['yldprolog.engine fact store, match_dynamic, retract/retractall/asserta/assertz builtins, clear', 'compiled idiom clauses (real compiler output)'],
               'stub': ['scheduler of the suspended enumerations and of the mutations between their steps'],
               'oracle': ['logical-update-view model: enumerations walk the records present at their start; retract skips records no longer stored; store = all asserts and removals applied']}
-REQUIRED_PROBES = ('step_after_mutation', 'mutation_under_suspended_enum', 'mutation_adjacent_to_cursor', 'retract_enum_skipped_removed',
+REQUIRED_PROBES = ('step_in_large_enumeration', 'nonground_fact_answered', 'step_after_mutation', 'mutation_under_suspended_enum', 'mutation_adjacent_to_cursor', 'retract_enum_skipped_removed',
                    'query_enum_visited_removed', 'two_enums_same_predicate', 'idiom_drain', 'idiom_upd', 'clear_under_suspended_enum')
 
 KEYS = [('p', 1), ('c', 1), ('p', 2)]
 VALS = [['a', 'a'], ['a', 'b'], ['a', 'c'], ['a', 'd']]
+NONGROUND = [['v', 0], ['f', 'f', [['v', 0]]], ['f', 'g', [['a', 'a'], ['v', 0]]], ['f', 'f', [['a', 'b']]]]
 IDIOM_LINE_BUDGET = 20000
 _IDIOMS = None
 
@@ -160,9 +161,36 @@ def gen(seed, tier):
     keys = rng.choice(([0], [0], [1], [0, 1], [2], [0, 1, 2]))
     nvals = rng.choice((2, 3, 4))
     p_idiom = rng.choice((0.0, 0.03, 0.08))
+    nonground = rng.random() < 0.3
+    if nonground:
+        # facts of the arity-1 predicates may contain (fact-local) variables; each enumeration has its own
+        # pattern variables, so answers of simultaneously suspended enumerations must be independent
+        keys = [k for k in keys if KEYS[k][1] == 1] or [0]
+        p_idiom = 0.0
 
     def row_for(ki):
+        if nonground and rng.random() < 0.5:
+            return [rng.choice(NONGROUND)]
         return [rng.choice(VALS[:nvals]) for _ in range(KEYS[ki][1])]
+    if rng.random() < 0.08:
+        # bulk mode: size-dependent paths (chunked copies, indexes) only exist above some size
+        ki = rng.choice(keys)
+        n = rng.randrange(60, 150)
+        p_idiom = 0.0          # the idioms' line budget is calibrated for small stores
+        ops.append(['bulk', ki, n, nvals])
+        for i in range(n):
+            m.add(KEYS[ki], [TM.T(VALS[(i * 7 + j) % nvals]) for j in range(KEYS[ki][1])], False)
+        kind = rng.choice('qr')
+        pat = [['v', j] for j in range(KEYS[ki][1])]
+        ops.append(['start', kind, ki, pat])
+        e = m.start(kind, KEYS[ki], [TM.T(t) for t in pat])
+        m.next(e)
+        k1 = rng.randrange(0, n)
+        ops.append(['stepn', 0, k1])
+        for _ in range(k1):
+            if m.next(e) is None:
+                e['done'] = True
+                break
     for _ in range(rng.randrange(3, 31)):
         k = rng.random()
         ki = rng.choice(keys)
@@ -182,9 +210,17 @@ def gen(seed, tier):
                 e['done'] = True
         elif k < 0.68 and live:
             i = rng.randrange(len(live))
-            ops.append(['step', i])
-            if m.next(live[i]) is None:
-                live[i]['done'] = True
+            if len(live[i]['snap']) > 40 and rng.random() < 0.5:
+                nsteps = rng.randrange(2, 90)
+                ops.append(['stepn', i, nsteps])
+                for _ in range(nsteps):
+                    if m.next(live[i]) is None:
+                        live[i]['done'] = True
+                        break
+            else:
+                ops.append(['step', i])
+                if m.next(live[i]) is None:
+                    live[i]['done'] = True
         elif k < 0.73 and live:
             i = rng.randrange(len(live))
             ops.append(['end', i, rng.choice(('close', 'drop'))])
@@ -233,6 +269,8 @@ def show_op(op):
         return '%s %s' % ('asserta' if op[1] else 'assertz', show_goal(op[2], op[3]))
     if op[0] == 'start':
         return 'start-%s %s' % ('query' if op[1] == 'q' else 'retract', show_goal(op[2], op[3]))
+    if op[0] == 'bulk':
+        return 'assertz %d facts on %s/%d' % (op[2], KEYS[op[1]][0], KEYS[op[1]][1])
     if op[0] in ('retract1', 'retractall'):
         return '%s %s' % ('retract-first' if op[0] == 'retract1' else 'retractall', show_goal(op[1], op[2]))
     return ' '.join(str(x) for x in op)
@@ -252,7 +290,7 @@ def execute(plan):
     live = []      # dict(model enum, task, pargs)
 
     def observe(pargs):
-        return TM.canon([TM.observe(a, {}) for a in pargs])
+        return TM.observe_canon(pargs)
 
     def readback():
         for name, ar in KEYS:
@@ -281,6 +319,8 @@ def execute(plan):
         before = (e['skipped'], e['visited_removed'])
         row = m.next(e)
         want = expected_answer(e, row)
+        if row is not None and not all(TM.is_ground(x) for x in row):
+            log.count('nonground_fact_answered')
         ok = entry['task'].step()
         got = observe(entry['pargs']) if ok else None
         if e['skipped'] > before[0]:
@@ -343,6 +383,33 @@ def execute(plan):
                 log.count('cases')
                 if not do_step(live[op[1] % len(live)], 'step'):
                     break
+            elif kind == 'stepn':
+                if not live:
+                    log.ev('noop')
+                    continue
+                entry = live[op[1] % len(live)]
+                ok_all = True
+                for _ in range(op[2]):
+                    if entry not in live:
+                        break
+                    log.count('cases')
+                    if len(entry['e']['snap']) > 64:
+                        log.count('step_in_large_enumeration')
+                    if not do_step(entry, 'step'):
+                        ok_all = False
+                        break
+                if not ok_all:
+                    break
+            elif kind == 'bulk':
+                _, ki, n, nv_ = op
+                key = KEYS[ki]
+                log.count('cases')
+                log.count('bulk_loads')
+                for i in range(n):
+                    row = [VALS[(i * 7 + j) % nv_] for j in range(key[1])]
+                    yp.assert_fact(yp.atom(key[0]), [TM.build(yp, TM.T(t), {}) for t in row])
+                    m.add(key, [TM.T(t) for t in row], False)
+                log.ev('bulk', ki, n)
             elif kind == 'end':
                 if not live:
                     log.ev('noop')
